@@ -12,7 +12,7 @@ git -C $W checkout -q --detach 2>/dev/null; git -C $W reset -q --hard $(git -C /
 cd $W
 if ! git apply $D/patch.diff 2>/tmp/seed-apply.txt; then echo "{\"applies\":false,\"why\":\"$(head -c 300 /tmp/seed-apply.txt | tr '\n"' ' .')\"}"; exit 0; fi
 fails() { grep -E "^\s*--- FAIL:" "$1" | grep -vE "$KNOWN_FAIL" | sed 's/ (.*//; s/.*--- FAIL: //' | sort -u | tr '\n' ' '; grep -qE "\[build failed\]|\[setup failed\]" "$1" && echo -n " BUILD-ERROR"; }
-cp $D/*_test.go $W/$PKG/ 2>/dev/null
+mkdir -p $W/$PKG; cp $D/*_test.go $W/$PKG/ 2>/dev/null
 BUILD=ok; go build ./pkg/... ./cmd/... >/tmp/seed-build.txt 2>&1 || BUILD=fail
 go test -vet=off -count=1 ./$PKG/ > /tmp/seed-demo-with.txt 2>&1
 DEMO_WITH=$(fails /tmp/seed-demo-with.txt)
